@@ -75,6 +75,13 @@ class C04(Prop):
                 failures.append(dict(**{'class': 'impl-missing', 'mode': 'header'}, input=r.input_text(),
                                      expected='an impl of ' + tr, observed=[p[0] for p in r.actual]))
                 continue
+            # `Self` inside the impl generics is only right in an impl FOR the type itself
+            unexp = [p for p in mine if ' for & ' in p[1] and ' Self ' in (' ' + _impl_generics(p[1]) + ' ')]
+            if unexp:
+                failures.append(dict(**{'class': 'self-not-expanded-in-impl-generics', 'mode': 'header'}, input=r.input_text(),
+                                     expected='`Self` of the declared generics replaced by the type in an impl for a reference',
+                                     observed=unexp[0][1][:400]))
+                continue
             ts, ps = expected_where(m)
             forms = FORMS.get(kind, [None])
             if len(mine) != len(forms):
@@ -97,6 +104,24 @@ class C04(Prop):
                     samples.append(dict(input=r.input_text()[:700], where=where_of(mine[0][1])[:300]))
         return dict(evaluations=len(results), validated=validated, failures=failures, samples=samples,
                     refused_for_other_reasons=skipped)
+
+
+def _impl_generics(hdr):
+    """the `< .. >` right after `impl` (or '')"""
+    toks = hdr.split(' ')
+    i = toks.index('impl') + 1
+    if i >= len(toks) or toks[i] != '<':
+        return ''
+    d, j = 0, i
+    while j < len(toks):
+        if toks[j] == '<':
+            d += 1
+        elif toks[j] == '>' and toks[j - 1] not in ('-', '='):
+            d -= 1
+            if d == 0:
+                break
+        j += 1
+    return ' '.join(toks[i:j + 1])
 
 
 def _impl_trait(hdr):
